@@ -247,7 +247,7 @@ Proof.
   rewrite Hpw, Hph in *.
   apply Forall_app. split.
   { destruct (cShape c && cCurChanged c && cReady c); [|constructor].
-    constructor; [destruct (sCursor st) as [[[[? ?] ?] ?]|]; exact Logic.I|constructor]. }
+    constructor; [destruct (sCursor st) as [[[[? ?] cw] ch]|]; [destruct ((cw =? 0) || (ch =? 0))|]; exact Logic.I|constructor]. }
   apply Forall_app. split.
   - unfold rects_inside in E3, E4. rewrite forallb_forall in E3, E4.
     apply Forall_forall. intros w Hw. apply in_map_iff in Hw. destruct Hw as (rc & <- & Hrc).
